@@ -3,6 +3,7 @@ package props
 import (
 	"bytes"
 	"encoding/binary"
+	"errors"
 	"encoding/json"
 	"fmt"
 	"os"
@@ -52,6 +53,9 @@ type c34Scenario struct {
 	// LingerMs: after its reader has seen the end of the inbound stream, a side waits this long before it calls Close
 	// (an application that still has work to do); the other side then faces a silent peer
 	LingerMs [2]int `json:"linger_ms,omitempty"`
+	// PauseMs: after the first bytes have arrived, a side's reader stops reading for this long (a slow consumer): with
+	// a small send window the other side's writes stall meanwhile
+	PauseMs [2]int `json:"pause_ms,omitempty"`
 	Reframe    int `json:"reframe,omitempty"`
 	KeyUpdates int `json:"key_updates,omitempty"`
 	Tape     []int     `json:"tape,omitempty"`
@@ -85,6 +89,9 @@ func genC34(seed uint64, tier string) any {
 	for side := 0; side < 2; side++ {
 		if r.Chance(1, 4) {
 			sc.LingerMs[side] = []int{100, 3000, 6000, 9000}[r.Intn(4)]
+		}
+		if sc.Net.Window > 0 && r.Chance(1, 2) {
+			sc.PauseMs[side] = []int{500, 8000, 12000}[r.Intn(3)]
 		}
 	}
 	if sc.Engine == "A" && sc.Version == vTLS13 && r.Chance(1, 2) {
@@ -262,6 +269,10 @@ type c34Side struct {
 	rdlDone   time.Time   // read deadline of the last completed SetDeadline/SetReadDeadline call on this side
 	rdlPending []time.Time // read deadlines of such calls that are executing right now
 	spurious  string      // a Read timed out before every read deadline the application had set
+	closeRet  time.Time   // when the first Close call of this side returned
+	closeDur  time.Duration // how long the slowest Close call of this side took
+	blockedAfterClose time.Duration // longest time a Read stayed blocked after a Close call on this side had returned
+	paused    bool
 	wdlMin    time.Time   // earliest write deadline the application has ever set on this side (a Read may have to write)
 	hsErr     error
 	nextSeq   map[int]int
@@ -327,10 +338,26 @@ func execC34(t *testing.T, scAny any, keepLog bool) *Outcome {
 		}
 		// a close_notify that could not be written completely (a write deadline moved by another goroutine expired in
 		// the middle of the alert record) leaves a cut record on the wire: the side ended abruptly
+		// timedClose runs Close and remembers when it returned and how long it took
+		timedClose := func(sd *c34Side) error {
+			t0 := s.Now()
+			err := sd.conn.Close()
+			if d := s.Now().Sub(t0); d > sd.closeDur {
+				sd.closeDur = d
+			}
+			if sd.closeRet.IsZero() {
+				sd.closeRet = s.Now()
+			}
+			return err
+		}
 		closeErr := func(sd *c34Side, err error) {
-			if ne, ok := err.(interface{ Timeout() bool }); ok && ne.Timeout() {
-				markAbrupt(sd)
-				o.count("probe.close_notify_timed_out", 1)
+			// (Close wraps the alert's error: look through the chain)
+			for e := err; e != nil; e = errors.Unwrap(e) {
+				if ne, ok := e.(interface{ Timeout() bool }); ok && ne.Timeout() {
+					markAbrupt(sd)
+					o.count("probe.close_notify_timed_out", 1)
+					break
+				}
 			}
 		}
 		// every blocking call has a deadline: the property's precondition
@@ -348,8 +375,24 @@ func execC34(t *testing.T, scAny any, keepLog bool) *Outcome {
 					t0 := s.Now()
 					n, err := sd.conn.Read(buf)
 					sd.recv = append(sd.recv, buf[:n]...)
+					if !sd.closeRet.IsZero() {
+						// how long after Close had returned (or, if later, after it was called) did this Read return?
+						ref := sd.closeRet
+						if t0.After(ref) {
+							ref = t0
+						}
+						if d := s.Now().Sub(ref); d > sd.blockedAfterClose {
+							sd.blockedAfterClose = d
+						}
+					}
 					if n > 0 {
 						lastProgress, spins = s.Now(), 0
+						if !sd.paused && sc.PauseMs[side] > 0 && err == nil {
+							sd.paused = true
+							s.Sleep(time.Duration(sc.PauseMs[side]) * time.Millisecond)
+							lastProgress = s.Now()
+							setRDL(sd, lastProgress.Add(base), true)
+						}
 					}
 					if ne, ok := err.(interface{ Timeout() bool }); err != nil && ok && ne.Timeout() && sd.spurious == "" && !sd.localClose {
 						// which read deadlines can be in effect? the last one set, or one being set right now
@@ -403,7 +446,7 @@ func execC34(t *testing.T, scAny any, keepLog bool) *Outcome {
 				if sd.inFlight > 0 {
 					markAbrupt(sd)
 				}
-				closeErr(sd, sd.conn.Close())
+				closeErr(sd, timedClose(sd))
 			})
 		}
 		wid := 0
@@ -524,7 +567,7 @@ func execC34(t *testing.T, scAny any, keepLog bool) *Outcome {
 							markAbrupt(sd)
 						}
 						sd.localClose = true
-						closeErr(sd, sd.conn.Close())
+						closeErr(sd, timedClose(sd))
 						return
 					}
 				}
@@ -543,6 +586,28 @@ func execC34(t *testing.T, scAny any, keepLog bool) *Outcome {
 		}
 		if o.Fail == nil && ackAfterTimeout != "" {
 			o.Fail = Failf("c34.ack_after_timeout", "a Write succeeded after an earlier Write on the connection had timed out", "%s", ackAfterTimeout)
+		}
+		kuOps := sc.Reframe != 0
+		for _, tk := range sc.Tasks {
+			for _, op := range tk.Ops {
+				if op.Op == "key_update_raw" || op.Op == "key_update_kill" || op.Op == "hello_request" {
+					kuOps = true
+				}
+			}
+		}
+		for side := 0; side < 2 && o.Fail == nil; side++ {
+			sd := sides[side]
+			// Close unblocks: once a Close call on a connection has returned, a Read blocked on that connection returns too
+			if sd.blockedAfterClose > time.Second {
+				o.Fail = Failf("c34.close_leaves_read_blocked", "a Read on the connection was still blocked long after Close had returned", "side %d: Close returned at %v, a Read stayed blocked for another %v (%v)", side, sd.closeRet.Sub(kit.SimEpoch), sd.blockedAfterClose, sd.readErr)
+				break
+			}
+			// Close does not wait for a stalled Write: it either interrupts the writers or sends its alert under a 5 s guard
+			// (a Read that is answering a KeyUpdate / renegotiating holds the write side legitimately: such runs are exempt)
+			if !kuOps && sd.closeDur > 6*time.Second {
+				o.Fail = Failf("c34.close_slow", "Close blocked for longer than its own 5 s guard (it waited for a stalled Write instead of interrupting it)", "side %d: Close took %v", side, sd.closeDur)
+				break
+			}
 		}
 		for side := 0; side < 2 && o.Fail == nil; side++ {
 			if sp := sides[side].spurious; sp != "" {
